@@ -590,6 +590,18 @@ pub fn blocks_to_markdown_and(blocks: &Blocks, sparce: bool, options: &MarkdownO
             if !after_empty_text {
                 result.push_str("\n");
             }
+        } else if n > 0 && blocks[n - 1].is_paragraph() && !blocks[n - 1].is_empty_text()
+            && matches!(block, GraphBlock::HorizontalRule)
+        {
+            // a line of dashes directly under a text line would be read back as a
+            // setext heading underline, not as a rule
+            result.push_str("\n");
+        } else if n > 0
+            && matches!(block, GraphBlock::Table(_, _, _))
+            && matches!(blocks[n - 1], GraphBlock::Table(_, _, _))
+        {
+            // two tables without a blank line in between would be read back as one
+            result.push_str("\n");
         }
         result.push_str(&block.to_markdown(options));
     }
